@@ -203,7 +203,9 @@ def opIter (s : Schema) (D : Nat) (root : Option KeySrc) (fresh : Target) (polls
     let tail := match ex' with
       | some c => s!"extra{extra} len{c}"
       | none => s!"extra{extra}"
-    " ".intercalate (items.toList ++ [tail])
+    let out := items.push tail
+    if out.size ≤ 2000 then " ".intercalate out.toList
+    else s!"n={out.size} " ++ " ".intercalate (out.toList.take 3) ++ " ... " ++ " ".intercalate (out.toList.drop (out.size - 4))
 
 def lookupStr : Lookup → String
   | .named ns => "n:" ++ ",".intercalate ns
